@@ -42,6 +42,21 @@ def gen_cases(tier, seed):
                  "currents": S.current_spec(rng, dev, o, "const" if nt else "none"),
                  "epsilon": {"kind": str(rng.choice(["one", "spatial", "time", "const"])), "value": -0.5}}
         cases.append({"layer": "L2", "device": dev, "options": o, "drive": drive, "monitors": ["step"], "cost": 30 if scr else 8, "solve_twice": bool(k % 2)})
+    for k in range(2 if tier == "quick" else 6):
+        # gamma = 0 (no inelastic scattering) is an ordinary value of the layer
+        dev = zoo.gen_device(rng, n_terminals=int([0, 2][k % 2]), n_holes=0, probes=0, size="small", gamma=0.0)
+        o = S.base_options(rng, adaptive=True, steps=80)
+        drive = {"A": S.field_spec(rng, dev, o, "uniform", b=0.3), "currents": S.current_spec(rng, dev, o, "const", strength=0.2), "epsilon": {"kind": "one"}}
+        cases.append({"layer": "L2", "device": dev, "options": o, "drive": drive, "monitors": ["step"], "cost": 8})
+    for k in range(2 if tier == "quick" else 6):
+        # terminals left free (terminal_psi=None), a uniform vector potential and an oversized first step: the update is unsolvable
+        # at some sites - wherever they are, the step is refused and retried
+        dev = zoo.gen_device(rng, n_terminals=2, n_holes=0, probes=0, size="small", gamma=float([10.0, 1.0][k % 2]))
+        o = S.base_options(rng, adaptive=True, steps=60)
+        o.update(terminal_psi="none", dt_init=float([0.2, 0.4][k % 2]), dt_max=0.5, adaptive_time_step_multiplier=0.25, max_solve_retries=25, adaptive_window=3, solve_time=3.0)
+        drive = {"A": {"kind": "shifted", "B": 0.0, "c": [float([0.6, 1.5][k % 2]) * S._scales(dev, o).Bc2 / S._scales(dev, o).fu * dev["layer"]["xi"], 0.0]},
+                 "currents": {"kind": "none"}, "epsilon": {"kind": "one"}}
+        cases.append({"layer": "L2", "device": dev, "options": o, "drive": drive, "monitors": ["step"], "cost": 8})
     for k in range(2 if tier == "quick" else 8):
         # screening (several Polyak iterations per step) on a biased device: mu changes from step to step, every iteration starts from (psi^n, mu^n)
         dev = zoo.gen_device(rng, n_terminals=2, n_holes=0, probes=0, size="tiny")
